@@ -1847,7 +1847,9 @@ class Interp:
         out = []
         for e in elts:
             if isinstance(e, ast.Starred):
-                out.extend(self.unpack_values(self.eval(e.value, env)))
+                vals = self.unpack_values(self.eval(e.value, env))
+                self.emit("copy", what="[*seq]", size=len(vals))
+                out.extend(vals)
             else:
                 out.append(self.eval(e, env))
         return out
@@ -1860,6 +1862,7 @@ class Interp:
                 src = self.eval(v, env)
                 if not isinstance(src, ADict):
                     raise self.unsupported("** of a non-dict in a dict display")
+                self.emit("copy", what="{**dict}", size=len(src.pairs))
                 for kk, vv in src.pairs:
                     self.models.dict_set(self, d, kk, vv, quiet=True)
             else:
@@ -2122,8 +2125,11 @@ class Interp:
             if is_strlike(a) and is_strlike(b):
                 return sstr(a, b)
             if isinstance(a, tuple) and isinstance(b, tuple):
+                self.emit("copy", what="tuple+tuple", size=len(a) + len(b))
                 return a + b
             if isinstance(a, AList) and isinstance(b, AList):
+                if not inplace:
+                    self.emit("copy", what="list+list", size=len(a.items) + len(b.items))
                 if inplace:
                     self.models.list_mutated(self, a, "extend")
                     a.items.extend(b.items)
